@@ -7,6 +7,7 @@ import pandas as pd
 
 from skchange.anomaly_detectors.base import CollectiveAnomalyDetector
 from skchange.change_detectors.base import ChangeDetector
+from skchange.utils.validation.data import check_data
 
 
 class StatThresholdAnomaliser(CollectiveAnomalyDetector):
@@ -81,12 +82,16 @@ class StatThresholdAnomaliser(CollectiveAnomalyDetector):
         y : `pd.Series` - annotations for sequence `X`
             exact format depends on annotation type
         """
+        X = check_data(X, min_length=1)
         # This is the required output format for the rest of the code to work.
         segments = self.change_detector_.transform(X)["labels"]
-        df = pd.concat([X, segments], axis=1)
+        # Positional frame of the (univariate) data and its segment labels.
+        df = pd.DataFrame(
+            {"values": X.iloc[:, 0].to_numpy(), "labels": segments.to_numpy()}
+        )
         anomalies = []
-        for _, segment in df.reset_index(drop=True).groupby("labels"):
-            segment_stat = self.stat(segment.iloc[:, 0].values)
+        for _, segment in df.groupby("labels"):
+            segment_stat = self.stat(segment["values"].to_numpy())
             if (segment_stat < self.stat_lower) | (segment_stat > self.stat_upper):
                 anomalies.append((int(segment.index[0]), int(segment.index[-1] + 1)))
 
